@@ -86,6 +86,12 @@ def custom_table_text(rnd):
     for n in rnd.sample(decodable, min(len(decodable), rnd.choice([0, 3, 30]))):
         if n not in dropped and AUDIT[n].get('cls') in ('SYS0', 'SYS1', 'SYS2'):
             extra[next(free)] = n                      # the same decodable name under a second id
+    # ... also the names of records that OTHER decoders pick out of their windows (lookups, sampler sub-records, image
+    # announcements, the trace-string / data records): every id the table gives them counts
+    helpers = [n for n in by_name if n in AUDIT and n not in FROZEN and n not in dropped and
+               AUDIT[n].get('cls') in ('LKP', 'THD', 'UHDR', 'UDATA', 'MAPA', 'SCA', 'GSTR', 'TNAME', 'NTD', 'NTS', 'EXD', 'EXS')]
+    for n in rnd.sample(helpers, min(len(helpers), rnd.choice([0, 1, 2, 4]))):
+        extra[next(free)] = n
     for n, i in list(new.items()) + [(n, i) for i, n in extra.items()]:
         if n in dropped:
             continue
